@@ -429,10 +429,28 @@ public:
 	}
 	integer& operator*=(const BlockType& scale) noexcept {
 		std::uint64_t scaleFactor(scale), segment(0);
-		for (unsigned i = 0; i < nrBlocks; ++i) {
-			segment += static_cast<std::uint64_t>(_block[i]) * scaleFactor;
-			_block[i] = static_cast<BlockType>(segment);
-			if constexpr (bitsInBlock == 64) segment = 0; else segment >>= bitsInBlock; // a shift by the full width of the accumulator is undefined
+		if constexpr (bitsInBlock == 64) {
+			// a limb product does not fit the 64-bit segment: build the 128-bit product from 32-bit halves and carry its high word
+			constexpr std::uint64_t LOW = 0xFFFF'FFFFull;
+			const std::uint64_t s0 = scaleFactor & LOW, s1 = scaleFactor >> 32;
+			for (unsigned i = 0; i < nrBlocks; ++i) {
+				const std::uint64_t b0 = static_cast<std::uint64_t>(_block[i]) & LOW, b1 = static_cast<std::uint64_t>(_block[i]) >> 32;
+				const std::uint64_t p00 = b0 * s0, p01 = b0 * s1, p10 = b1 * s0, p11 = b1 * s1;
+				const std::uint64_t mid = (p00 >> 32) + (p01 & LOW) + (p10 & LOW);
+				std::uint64_t lo = (p00 & LOW) | (mid << 32);
+				std::uint64_t hi = p11 + (p01 >> 32) + (p10 >> 32) + (mid >> 32);
+				lo += segment;
+				if (lo < segment) ++hi;
+				_block[i] = static_cast<BlockType>(lo);
+				segment = hi;
+			}
+		}
+		else {
+			for (unsigned i = 0; i < nrBlocks; ++i) {
+				segment += static_cast<std::uint64_t>(_block[i]) * scaleFactor;
+				_block[i] = static_cast<BlockType>(segment);
+				segment >>= bitsInBlock;
+			}
 		}
 		return *this;
 	}
